@@ -345,7 +345,11 @@ def direct_oracle(toks, logged, all_marked):
     return fails
 
 
-def reference_doc(lib, page):
+class TooBig(Exception):
+    pass
+
+
+def reference_doc(lib, page, cap=None):
     """Independent executable statement of the property: expand the program (each component instance gets a fresh
     number), and emit every element with exactly the ids of the instances it is a top-level element of.
     Also returns the number of instances and the recursion depth the Coq expansion needs (its fuel)."""
@@ -356,6 +360,8 @@ def reference_doc(lib, page):
         # inherited: ids carried by top-level elements at this position
         # env: (fills {slot: forest}, env of the fills' author) | None
         maxd[0] = max(maxd[0], d)
+        if cap is not None and (counter[0] > cap or len(out) > 12 * cap):
+            raise TooBig()
         for t in forest:
             k = t[0]
             if k == "E":
@@ -532,13 +538,13 @@ def gen_forest(rng, size, avail, where, depth=0):
             else:
                 fills = [(s, gen_forest(rng, size, avail, where, depth + 1), True) for s in rng.sample([0, 1], 2)]
             out.append(Cc(k, dyn=rng.random() < 0.12, fills=fills))
-        elif r < 0.80 and where == "tpl":
+        elif r < 0.81 and where == "tpl":
             out.append(S(*gen_forest(rng, size, avail, where, depth + 1), name=rng.choice([0, 0, 0, 1])))
         elif r < 0.86:
             out.append(R(rng.choice([0, 1, 2, 2, 3]), *gen_forest(rng, size, avail, where, depth + 1)))
-        elif r < 0.91:
+        elif r < 0.90:
             out.append(If(rng.random() < 0.7, *gen_forest(rng, size, avail, where, depth + 1)))
-        elif r < 0.97 and avail:
+        elif r < 0.98 and avail:
             out.append(P(rng.choice(avail), rng.choice(["lazy", "lazy", "lazy-deps"])))
         else:
             out.append(T)
@@ -560,10 +566,17 @@ def gen_random(rng, n, marked_all=True):
                     f[0] = ("E", f[0][1], [p] + f[0][2], f[0][3])
                 else:
                     f.insert(0, p)
+            if avail and rng.random() < 0.25:
+                f.append(Cc(rng.choice(avail)))        # a later root-level component: its attribute entry waits while the rest renders
             lib.append((f, not unmarked))
         page = gen_forest(rng, [rng.choice([2, 3, 5])], list(range(nc)), "page")
         if not any(t[0] == "C" for t in page):
             page.append(Cc(0))
+        try:
+            reference_doc(lib, page, cap=150)       # loops x repeated slots x several children multiply: keep pages small
+            reference_doc(lib, [Cc(0)], cap=150)
+        except TooBig:
+            continue
         yield lib, page, "random"
 
 
